@@ -150,7 +150,7 @@ func dupKeys(n *gt.Node) bool {
 var rec = ev.New("TestPropEveryStringOnce", "grammar-generated pipelines (all step kinds incl. unknown steps, groups, anchors/aliases, maps of 0-24 keys) whose strings at every position - labels, keys, commands, plugin sources, config keys and values, step env names and values, matrix setup / adjustments / skip reasons, cache name / paths / size / extras, group, wait / input / trigger / unknown contents, top-level extras; mapping keys as well as values - are templates over literals, $VAR, ${VAR}, defaults, substrings, escapes ($$VAR, \\$VAR, $${VAR}), lone $, and rare failing forms, with an environment whose values look like references; oracle = interpolate.Interpolate applied string by string to an object-model walk of the parsed pipeline (signatures untouched, nothing else changes), error iff some expansion fails, five runs identical; non-trivial = >= 1 escaped reference and >= 5 strings with references, or a map of > 8 entries with references in keys; distinct by hash of the YAML text")
 
 func TestPropEveryStringOnce(t *testing.T) {
-	ev.Check(t, 1500, 12000, func(t *rapid.T) {
+	ev.Check(t, 1000, 10000, func(t *rapid.T) {
 		st := &tstats{}
 		cfg := doc.Config{
 			Str:       func(t *rapid.T, role string) string { return template(t, role, st) },
